@@ -34,6 +34,8 @@ func main() {
 	rule := fs.String("r", "", "rule id")
 	withCtl := fs.Bool("ctl", false, "load the rule's positive controls")
 	file := fs.String("f", "", "replay file")
+	name := fs.String("name", "", "catalogue entry")
+	outDir := fs.String("out", os.Getenv("VERIF_EVIDENCE_DIR"), "evidence output directory (default <verif>/evidence)")
 	fs.Parse(os.Args[2:])
 	if *tier == "" {
 		*tier = os.Getenv("VERIF_TIER")
@@ -54,7 +56,7 @@ func main() {
 			fmt.Fprintf(os.Stderr, "unknown property %q\n", *prop)
 			os.Exit(2)
 		}
-		os.Exit(runProperty(runConfig{verifDir: *verif, repoDir: *repo, tier: *tier, seed: seed}, p))
+		os.Exit(runProperty(runConfig{verifDir: *verif, repoDir: *repo, tier: *tier, seed: seed, outDir: *outDir}, p))
 	case "rule":
 		r := rules[*rule]
 		if r == nil {
@@ -112,6 +114,34 @@ func main() {
 			}
 			affDump(m, parts[0], recv, parts[len(parts)-1])
 		}
+	case "selftest-one":
+		r := selftestOne(*verif, *repo, *name)
+		b, _ := json.Marshal(r)
+		fmt.Println(string(b))
+	case "selftest":
+		var only map[string]bool
+		if *rule != "" {
+			only = map[string]bool{}
+			for _, x := range strings.Split(*rule, ",") {
+				only[x] = true
+			}
+		}
+		rs := selftestAll(*verif, *repo, only, 8)
+		bad := 0
+		for _, r := range rs {
+			mark := "ok "
+			if r.Status == "missed" || r.Status == "false-alarm" || r.Status == "does-not-compile" || strings.HasPrefix(r.Status, "subprocess") {
+				mark = "BAD"
+				bad++
+			}
+			fmt.Printf("%s %-7s %-34s %-18s expect=%v reported=%v %s\n", mark, r.Kind, r.Name, r.Status, r.Expect, r.Reported, func() string {
+				if r.Status == "does-not-compile" {
+					return r.Note
+				}
+				return ""
+			}())
+		}
+		fmt.Printf("selftest: %d entries, %d problems\n", len(rs), bad)
 	case "manifest":
 		if err := writeManifest(*verif); err != nil {
 			fmt.Fprintln(os.Stderr, err)
